@@ -32,6 +32,15 @@ type operandProv struct {
 	Kind  string // v, B, H
 	Prov  string // provenance of the value
 	Pos   token.Pos
+	Src   string // for a constant index: what the constant was made from ("unquote(token)", `const:""`), when followed
+}
+
+// errSite: a diagnostic call met on a path, with what the path had last done with the tokens.
+type errSite struct {
+	Pos     token.Pos
+	Fn      string // entry being interpreted
+	At      string // "prev" or "current": the token the diagnostic is attached to
+	LastTok string
 }
 
 type emPay struct {
@@ -49,7 +58,8 @@ type emPay struct {
 	lastOp    string
 	trace     []string
 	prevTyp   Value
-	epoch     int // number of advances so far (dispatch axiom)
+	lastTok   string // what the path last did with the token stream: "" (nothing yet), "consumed", "peeked"
+	epoch     int    // number of advances so far (dispatch axiom)
 	operands  []operandProv
 	problems  []string
 	events    []string // declVar/defVar order, etc.
@@ -144,7 +154,9 @@ type emitModel struct {
 	order    []string
 	Emitted  map[string]bool
 	Operands []operandProv
-	Missing  []string // unresolved anchors
+	Missing  []string  // unresolved anchors
+	ErrSites []errSite // diagnostics raised on the interpreted paths
+	curEntry string
 	nextJump int
 	inPopN   bool
 }
@@ -164,6 +176,7 @@ type emitOutcome struct {
 	Ret      Value
 	Words    string // token texts assumed on the path, in token order
 	BindByte string
+	Operands []operandProv
 }
 
 type emitEntry struct {
@@ -268,12 +281,14 @@ func (m *emitModel) run(fn, tok, class string) {
 		return
 	}
 	ent.Decl = fd
+	m.curEntry = key
 	in := newInterp(c, m.hooks())
 	pay := &emPay{base: linSym("d0"), d: linSym("d0"), L: linSym("L0"), prevTyp: unknownV(), emitted: map[string]bool{}}
 	if fn == "parse" {
 		pay.base, pay.d, pay.L = linConst(0), linConst(0), linConst(0)
 	}
 	if tok != "" {
+		pay.lastTok = "consumed" // a prefix/infix rule runs right after parsePrecedence consumed its token
 		for _, t := range m.toks {
 			if t.Name == tok {
 				pay.prevTyp = constV(constant.MakeInt64(t.Val))
@@ -301,7 +316,7 @@ func (m *emitModel) run(fn, tok, class string) {
 			base, baseL = linConst(0), linConst(0)
 		}
 		ent.Outcomes = append(ent.Outcomes, emitOutcome{D: p.d.sub(base), L: p.L.sub(baseL), B: p.B, Need: need, Trace: p.trace, Problems: p.problems,
-			Jumps: len(p.jumps), Scopes: len(p.scopes), Dead: p.dead, Pending: p.pendOp + ":" + p.pendShape, LastOp: p.lastOp, Events: p.events, Ret: r.v, Words: p.words(), BindByte: p.bindByte})
+			Jumps: len(p.jumps), Scopes: len(p.scopes), Dead: p.dead, Pending: p.pendOp + ":" + p.pendShape, LastOp: p.lastOp, Events: p.events, Ret: r.v, Words: p.words(), BindByte: p.bindByte, Operands: append([]operandProv(nil), p.operands...)})
 		for op := range p.emitted {
 			m.Emitted[op] = true
 		}
@@ -420,6 +435,12 @@ func (m *emitModel) hooks() Hooks {
 		}
 		return true
 	}
+	h.AssumeKey = func(in *Interp, st *State, key Value, k constant.Value, eq bool) bool {
+		if key.K == vTag && key.Tag == "prevval" && k.Kind() == constant.String {
+			return pay(st).assumeVal(key.Data.(int), constant.StringVal(k), eq)
+		}
+		return true
+	}
 	h.CaseMatch = func(in *Interp, st *State, tag Value, caseExpr ast.Expr, taken bool) bool {
 		if tag.K == vTag && tag.Tag == "prevval" {
 			if k, isK := c.strConst(caseExpr); isK {
@@ -479,20 +500,53 @@ func (m *emitModel) hooks() Hooks {
 			return nil, false
 		}
 		role := emitPrims[qname(callee)]
+		if qname(callee) == "strconv.Unquote" && len(args) == 1 && args[0].K == vTag && args[0].Tag == "prevval" {
+			uq := tagV("unquoted", args[0].Data)
+			uq.T = types.Typ[types.String]
+			return one(st, Value{K: vTuple, Tup: []Value{uq, unknownV()}}), true
+		}
 		switch {
 		case role == "":
 			return nil, false
 		case role == "nop", role == "count":
 			return one(st, unknownV()), true
 		case role == "error":
+			at := ""
+			switch qname(callee) {
+			case "parser.error":
+				at = "prev"
+			case "parser.errorAtCurrent":
+				at = "current"
+			default:
+				if len(call.Args) > 0 {
+					switch c.fieldPath(call.Args[0]) {
+					case "&<parser>.prev", "<parser>.prev":
+						at = "prev"
+					case "&<parser>.current", "<parser>.current":
+						at = "current"
+					}
+					if ue, ok := stripParens(call.Args[0]).(*ast.UnaryExpr); ok && ue.Op == token.AND {
+						switch c.fieldPath(ue.X) {
+						case "<parser>.prev":
+							at = "prev"
+						case "<parser>.current":
+							at = "current"
+						}
+					}
+				}
+			}
+			m.ErrSites = append(m.ErrSites, errSite{Pos: call.Pos(), Fn: m.curEntry, At: at, LastTok: p.lastTok})
 			return []valState{}, true // assumption A: this path raises a diagnostic, the program is rejected
 		case role == "advance", role == "consume", role == "sync":
+			p.lastTok = "consumed"
 			p.epoch++
 			p.prevTyp = unknownV()
 			p.trace = append(p.trace, "adv")
 			return one(st, unknownV()), true
 		case role == "match", role == "matchEnd":
 			f := st.clone()
+			pay(f).lastTok = "peeked"
+			p.lastTok = "consumed"
 			p.epoch++
 			p.prevTyp = unknownV()
 			adv := "adv"
@@ -509,6 +563,7 @@ func (m *emitModel) hooks() Hooks {
 			}
 			return []valState{{st, constV(constant.MakeBool(true))}, {f, constV(constant.MakeBool(false))}}, true
 		case role == "check", role == "checkEnd":
+			p.lastTok = "peeked"
 			return one(st, unknownV()), true
 		case role == "getRule":
 			ref := ruleRef{Epoch: p.epoch}
@@ -577,7 +632,11 @@ func (m *emitModel) hooks() Hooks {
 			if len(args) == 1 {
 				prov = provOf(args[0])
 			}
+			n0 := len(p.operands)
 			m.operand(p, call, "v", prov)
+			if len(p.operands) == n0+1 && len(args) == 1 && args[0].K == vTag && args[0].Tag == "constidx" && len(args[0].Tup) == 1 {
+				p.operands[n0].Src, _ = args[0].Tup[0].Data.(string)
+			}
 			return one(st, unknownV()), true
 		case role == "emitByte":
 			if p.pendOp == "opBIND" {
@@ -647,7 +706,19 @@ func (m *emitModel) hooks() Hooks {
 			if len(args) == 1 && args[0].T != nil {
 				t = types.TypeString(args[0].T, func(*types.Package) string { return "" })
 			}
-			return one(st, tagV("constidx", "makeConst:"+t)), true
+			cv := tagV("constidx", "makeConst:"+t)
+			if len(args) == 1 {
+				switch {
+				case args[0].K == vTag && args[0].Tag == "unquoted":
+					cv.Tup = []Value{tagV("src", "unquote(token)")}
+					if t == "?" {
+						cv.Data = "makeConst:string"
+					}
+				case args[0].K == vConst:
+					cv.Tup = []Value{tagV("src", "const:"+args[0].C.ExactString())}
+				}
+			}
+			return one(st, cv), true
 		case role == "cut:decl":
 			// signature of decl: depth and local count grow together by 0 or 1
 			if p.pendShape != "" || p.dead {
@@ -656,6 +727,7 @@ func (m *emitModel) hooks() Hooks {
 			m.slack(p, 0)
 			p.epoch++
 			p.prevTyp = unknownV()
+			p.lastTok = "consumed"
 			p.lastOp = "?"
 			p.trace = append(p.trace, "sub:decl")
 			g := st.clone()
@@ -725,6 +797,7 @@ func (m *emitModel) applySig(p *emPay, call *ast.CallExpr, which string) {
 	}
 	p.epoch++
 	p.prevTyp = unknownV()
+	p.lastTok = "consumed"
 	switch which {
 	case "parsePrecedence", "prefix":
 		// need 0, d+1
